@@ -98,6 +98,9 @@ pub fn run_ops(live: &Live, coll: &Arc<Collection>, ops: &[Op], chooser: &mut Ch
     live.ctl.clear_labels();
     live.ctl.keep_labels(true);
     live.ctl.set_gate(true);
+    // responses are scheduling points too: a call suspends once before it takes
+    // effect and once after, before its result is delivered
+    live.ctl.set_post_gate(true);
     let mut sched = Sched::new();
     let ctl = live.ctl.clone();
     sched.on_switch = Some(Box::new(move |t| ctl.set_task(t)));
@@ -228,7 +231,14 @@ pub fn linearize(live: &Live, coll: &Collection, idx: Idx, start: &SeqModel, ops
             }
             model.apply(&ops[i], o);
         }
-        let bad = util::block_on(full_compare(coll, &model.docs, idx, probe_bound(&model)));
+        let mut bad = util::block_on(full_compare(coll, &model.docs, idx, probe_bound(&model)));
+        let ext = coll.get_extension("k").and_then(|v| match v {
+            anda_db::query::Fv::U64(x) => Some(x as u8),
+            _ => None,
+        });
+        if ext != model.ext {
+            bad.push(format!("extension k = {ext:?}, model {:?}", model.ext));
+        }
         if bad.is_empty() {
             let _ = live;
             return Ok(perm);
